@@ -6,7 +6,9 @@
 //! the `lookup` lines carry the oracle (a name is found exactly if the partition contains it).
 //! API level: tables with such columns are written to a temp directory with a tiny `max_partition_size_bytes`,
 //! the database is dropped and reopened, every column and some absent names are SELECTed, and the files under
-//! `tables/` are compared with the paths the model derives from the catalogue.
+//! `tables/` are compared with the paths the model derives from the catalogue; the keys the catalogue records are
+//! compared with the model's `keyOf` (`keys` lines).  Name classes `limit-*` sit on the real limits (64 bytes for a
+//! verbatim key; <= 64 characters but up to 256 bytes with 4-byte lower-case letters).
 //! Read-state level (`reads`): on the reopened database a random sequence of `SELECT <col>` (stored and absent names,
 //! repeated, in any order) and `evict_cache()` calls; per query the answer (stored values / all NULL) and
 //! `QueryStats.files_opened` are compared with the Lean read-side machine (`Disk/ReadState.lean`: handles, `empty`
@@ -53,6 +55,29 @@ fn make_col(name: &str, n: usize, kind: u64, tag: i64) -> Arc<Column> {
     b.finalize(name)
 }
 
+/// Name classes around the REAL limits: `is_filesystem_safe` admits names of at most 64 BYTES made of lower-case
+/// alphanumeric characters (any script) or `_`; a key used verbatim must keep `NNNNN_<key>..INCOMPLETE` (the temporary
+/// file of the atomic write, key + 18 bytes) within the 255-byte file-name limit, i.e. key <= 237 bytes.  Names of 60..64
+/// lower-case letters of 4 / 3 / 2 bytes have <= 64 characters but 240..256 / 180..192 / 120..128 bytes: they must be hashed.
+fn limit_name_sets() -> Vec<(&'static str, Vec<String>)> {
+    let d4 = "\u{10428}"; // DESERET SMALL LETTER LONG I, 4 bytes, lower-case
+    let e4 = "\u{10429}";
+    let d3 = "\u{1e01}";  // LATIN SMALL LETTER A WITH RING BELOW, 3 bytes
+    let d2 = "é";
+    let r = |s: &str, n: usize| s.repeat(n);
+    let mut v4: Vec<String> = (60..=65).map(|n| r(d4, n)).collect();
+    v4.push(format!("{}{}", r(d4, 59), e4));
+    v4.extend(["a".to_string(), "m".to_string()]);
+    let mut v3: Vec<String> = (60..=64).map(|n| r(d3, n)).collect();
+    v3.extend([format!("{}a", r(d3, 21)), format!("{}ab", r(d3, 21)), r(d3, 85), "b".to_string()]);
+    let mut v2: Vec<String> = (60..=64).map(|n| r(d2, n)).collect();
+    v2.extend([r(d2, 32), format!("{}ab", r(d2, 31)), format!("{}a", r(d2, 32)), "c".to_string()]);
+    let va: Vec<String> = vec![r("a", 64), r("a", 65), format!("{}b", r("a", 63)), format!("{}_", r("a", 63)), format!("{}_", r("a", 64)), r("b", 237), r("b", 238), "z".to_string()];
+    let vm: Vec<String> = vec![r(d4, 16), format!("{}a", r(d4, 16)), format!("{}abcd", r(d4, 60)), format!("{}{}abcd", r(d3, 10), r(d2, 10)),
+        format!("{}{}{}abcd", r(d4, 20), r(d3, 20), r(d2, 20)), format!("A{}", r(d4, 59)), format!("{}{}", r("ω", 30), r(d4, 34)), "q".to_string()];
+    vec![("limit-4byte", v4), ("limit-3byte", v3), ("limit-2byte", v2), ("limit-ascii", va), ("limit-mixed", vm)]
+}
+
 fn name_sets(rng: &mut Rng, thorough: bool) -> Vec<(&'static str, Vec<String>)> {
     let long64 = "a".repeat(64);
     let long65 = "a".repeat(65);
@@ -89,6 +114,7 @@ fn name_sets(rng: &mut Rng, thorough: bool) -> Vec<(&'static str, Vec<String>)> 
         let hexname = format!("{:x}", h.finalize());
         sets.push(("hash-sibling", vec!["Foo".into(), hexname, "a".into(), "zz".into()]));
     }
+    sets.extend(limit_name_sets());
     let pool: Vec<String> = ["a", "b", "c", "d", "A", "B", "é", "col1", "x_y", "Zed", "日", "m", "n", "o", "p", "q", "r", "", "a/b", "all"]
         .iter().map(|x| x.to_string()).collect();
     let nrand = if thorough { 300 } else { 40 };
@@ -307,6 +333,9 @@ fn listing(root: &Path) -> Vec<String> {
     out
 }
 
+/// `heap_size_of_children` of one 6-row column of the `api` tables (values around 10^6: two bytes per value after offset coding).
+const API_COLSZ: u64 = 12;
+
 struct ApiCfg { class: &'static str, table: String, cols: Vec<String>, max: u64, batches: usize }
 
 fn api_level(rng: &mut Rng, cases: &mut Cases, thorough: bool) {
@@ -330,6 +359,14 @@ fn api_level(rng: &mut Rng, cases: &mut Cases, thorough: bool) {
         ApiCfg { class: "table-300", table: "L".repeat(300), cols: s(&["a", "b"]), max: 1, batches: 1 },
         ApiCfg { class: "table-empty", table: "".into(), cols: s(&["a", "b"]), max: 1, batches: 1 },
     ];
+    // names around the real limits, each the last column of its own file (max 1) resp. of a file of several columns
+    for (class, cols) in limit_name_sets() {
+        // table name without cased letters: no case-variant sibling table (halves the number of files / fsyncs)
+        cfgs.push(ApiCfg { class, table: "77".into(), cols: cols.clone(), max: 1, batches: 1 });
+        if class == "limit-4byte" || class == "limit-mixed" {
+            cfgs.push(ApiCfg { class: if class == "limit-4byte" { "limit-4byte-grouped" } else { "limit-mixed-grouped" }, table: "Lim".into(), cols, max: 2 * API_COLSZ, batches: 2 });
+        }
+    }
     if thorough {
         for _ in 0..20 {
             let pool: [&str; 13] = ["a", "b", "c", "A", "B", "col1", "é", "x_y", "Zed", "m", "n", "long name", "q/r"];
@@ -339,7 +376,9 @@ fn api_level(rng: &mut Rng, cases: &mut Cases, thorough: bool) {
                 max: *rng.pick(&[1u64, 50, 200, u64::MAX]), batches: 1 + rng.below(2) as usize });
         }
     }
+    let mut t_last = std::time::Instant::now();
     for cfg in cfgs {
+        if std::env::var("C15_TIMING").is_ok() { eprintln!("api: {:?} before {}", t_last.elapsed(), cfg.class); t_last = std::time::Instant::now(); }
         let dir = tempfile::tempdir().unwrap();
         let opts = Options { max_partition_size_bytes: cfg.max, partition_combine_factor: 999, ..disk_options(dir.path()) };
         let rows = 6usize;
@@ -381,6 +420,17 @@ fn api_level(rng: &mut Rng, cases: &mut Cases, thorough: bool) {
             let mut per_table: BTreeMap<String, Vec<(u64, String)>> = BTreeMap::new();
             for p in ms.partitions() {
                 for sp in &p.subpartitions { per_table.entry(p.tablename.clone()).or_default().push((p.id, sp.subpartition_key.clone())); }
+            }
+            // the key the catalogue records for every file vs `keyOf` of the model (verbatim iff filesystem safe, else
+            // SHA-256 hex; `all` for a single file), and the oracle: distinct keys whose file names fit
+            for p in ms.partitions() {
+                let lasts: Vec<String> = p.subpartitions.iter().map(|sp| sp.last_column.clone()).collect();
+                let keys: Vec<String> = p.subpartitions.iter().map(|sp| sp.subpartition_key.clone()).collect();
+                let u = utok(&lasts.iter().collect::<Vec<_>>());
+                let out = ntoks(&keys);
+                let longest = keys.iter().map(|k| k.len()).max().unwrap_or(0);
+                cases.push(&format!("{}:keys:{}", class, if keys.len() == 1 { "one-file" } else if keys.iter().zip(lasts.iter()).all(|(k, l)| k == l) { "verbatim" } else if keys.iter().zip(lasts.iter()).all(|(k, l)| k != l) { "hashed" } else { "verbatim+hashed" }),
+                    &format!("keys {} {} {} :: {}", u, p.id, ntoks(&lasts), out), &out, &format!("table {:?} partition {}: longest key {} bytes, longest last_column {} bytes", p.tablename, p.id, longest, lasts.iter().map(|l| l.len()).max().unwrap_or(0)));
             }
             let files = listing(&dir.path().join("tables"));
             let nfiles: usize = per_table.values().map(|v| v.len()).sum();
@@ -451,6 +501,11 @@ fn reads_level(rng: &mut Rng, cases: &mut Cases, thorough: bool) {
         // names that begin with a quote character (witness of the fixed parser defect: `strip_quotes` on an unquoted name)
         ("quote-lead", "t".into(), s(&["a", "`ab", "`a`", "`", "b", "'x'"]), 2 * COLSZ),
     ];
+    for (class, names) in limit_name_sets() {
+        if class == "limit-4byte" { cfgs.push(("limit-4byte", "t".into(), names.clone(), 1)); }
+        if class == "limit-mixed" { cfgs.push(("limit-mixed", "t".into(), names.clone(), 2 * COLSZ)); }
+        if thorough && class != "limit-4byte" && class != "limit-mixed" { cfgs.push((class, "t".into(), names, 3 * COLSZ)); }
+    }
     let nrand = if thorough { 40 } else { 6 };
     for _ in 0..nrand {
         let pool: [&str; 14] = ["a", "b", "c", "A", "B", "col1", "é", "x_y", "Zed", "m", "n", "long name", "q/r", "all"];
